@@ -328,7 +328,7 @@ def run(rep, tier="quick", srcdir=None, only=None):
         from . import C06
         from dqsa import trans as _trans
         C06.rule_AI3(rep, prog, Q(srcdir), _trans.Extractor(prog, tier))
-    if want("C01-TR1"):
+    if want("C01-TR1") or want("C01-TR4"):
         # a merge that lands while a client thread holds the source's drain lock (a handler setter, cancel_and_wait) only sets DIRTY: the unlock must notice it
         # and re-evaluate the source through its wakeup function, or the merged value stays pending with nobody scheduled to deliver it (shared with C01)
         from . import C01
@@ -339,6 +339,10 @@ def run(rep, tier="quick", srcdir=None, only=None):
         for f_ in sorted(prog.all_functions(), key=lambda f: f.name):
             ts.extend(ex.transitions(f_, DQ_STATE, plain=True))
         C01.rule_TR1(rep, prog, ex, Q(srcdir), ts)
+        if want("C01-TR4"):
+            # a merge made from inside the source's own handler is re-driven by the DIRTY bit alone when the source sits directly on an overcommit root queue
+            # (invoke2 re-checks pending data only under avoid_starvation): the wake-up must publish DIRTY even when the caller is the drainer itself (shared with C01)
+            C01.rule_TR4(rep, prog, ex, Q(srcdir), ts)
 
 
 MANIFEST = {
